@@ -11,6 +11,7 @@ type versVarEvent struct {
 	Variants []string   `json:"variants"`
 	Res      [][]int    `json:"res"` // [variant][probe]
 	Panics   []string   `json:"panics"`
+	Poison   string     `json:"poison"` // a rejected range evaluated between the spellings (its answer is not judged here)
 }
 
 func versCode(r, v string, pans *[]string) int {
@@ -38,9 +39,16 @@ func init() {
 			ev.BaseRes[i] = versCode(ev.Base, p, &ev.Panics)
 		}
 		ev.Res = make([][]int, len(ev.Variants))
+		// Between the spellings a range that is rejected half-way (valid constraints first, then an invalid version)
+		// is evaluated: an answer must not depend on what an earlier, failed call left behind.
+		ev.Poison = ev.Base + "|<1.x!y z"
 		for k, v := range ev.Variants {
 			ev.Res[k] = make([]int, len(ev.Probes))
 			for i, p := range ev.Probes {
+				if i%2 == 0 && len(ev.Probes) > 0 {
+					var ignored []string
+					_ = versCode(ev.Poison, ev.Probes[0], &ignored)
+				}
 				ev.Res[k][i] = versCode(v, p, &ev.Panics)
 			}
 		}
